@@ -226,6 +226,9 @@ class RebuildWorld(fcd.FcdWorld):
         raise AnalysisError("is_empty of %r" % (s,))
 
     def str_ends_with(self, m, st, s, pat):
+        if isinstance(s, Str) and s.tag == ("prefix",) and isinstance(pat, I) and pat.v == SPACE:
+            # prefix.ends_with(SPACE): the last character of the unchanged prefix is this world's case
+            return ip.boolean(self.prefix_last == "S")
         if not (isinstance(s, Opq) and s.kind == "buf") and not (isinstance(s, Str) and s.tag == ("bufcontent",)):
             raise AnalysisError("ends_with on %r" % (s,))
         if not (isinstance(pat, I) and pat.v == SPACE):
